@@ -445,6 +445,23 @@ func (vc *VC) loopHeader(li *LoopInfo, reach Term, entrySt *State, entryPhi map[
 			vc.assume("inferred loop frame (checked syntactically): every write into " + name + " inside the loop is an element store through one loop-invariant slice, so all other arrays and the elements outside that slice are unchanged")
 		}
 	}
+	if fc != nil && li.ordinal > 0 {
+		li.frames = nil
+		for _, cl := range fc.LoopMod[li.ordinal] {
+			v := vc.loopClauseVal(li, cl, entryPhi, entrySt)
+			sl, ok := v.typ.Underlying().(*types.Slice)
+			if !ok {
+				vc.fail("%s:%d: loop modifies needs a slice expression", cl.File, cl.Line)
+			}
+			name, sort := vc.memName(sl.Elem())
+			lf := &loopFrame{heap: name, sort: sort, sl: vc.define("modwin", "Slice", v.t), oldH: vc.heapGet(entrySt, name, sort), text: cl.Text}
+			li.frames = append(li.frames, lf)
+			if mod[name] || mod["*"] {
+				vc.quantCtx = true
+				vc.addAssume(reach, vc.loopFrameTerm(lf, vc.heapGet(st, name, sort)))
+			}
+		}
+	}
 	vc.flushWF(st)
 	li.havocPhi = map[*ssa.Phi]Val{}
 	for _, in := range b.Instrs {
@@ -535,6 +552,10 @@ func (vc *VC) isPhiPlusNonneg(v ssa.Value, phi *ssa.Phi, li *LoopInfo, depth int
 
 // loopClause evaluates an invariant/variant of loop li with the header phis bound to phiVals in state st.
 func (vc *VC) loopClause(li *LoopInfo, cl *Clause, phiVals map[*ssa.Phi]Val, st *State) Term {
+	return vc.loopClauseVal(li, cl, phiVals, st).t
+}
+
+func (vc *VC) loopClauseVal(li *LoopInfo, cl *Clause, phiVals map[*ssa.Phi]Val, st *State) Val {
 	env := map[string]Val{}
 	for k, v := range vc.params {
 		env[k] = v
@@ -570,6 +591,9 @@ func (vc *VC) loopClause(li *LoopInfo, cl *Clause, phiVals map[*ssa.Phi]Val, st 
 		return r
 	}
 	for i, n := range names {
+		if pv, isParam := vc.params[n]; isParam {
+			env["entry$"+n] = pv
+		}
 		env[n] = get(li.marker.Call.Args[i+1])
 	}
 	// `rangeidx`: the hidden index of a `for range` loop over a slice/array/int (the element the
@@ -577,7 +601,7 @@ func (vc *VC) loopClause(li *LoopInfo, cl *Clause, phiVals map[*ssa.Phi]Val, st 
 	if inc := vc.rangeIndexInc(li); inc != nil {
 		env["verif_rangeidx"] = get(inc)
 	}
-	return vc.clauseTerm(vc.fi, cl, env, nil, st, vc.entry)
+	return vc.clauseVal(vc.fi, cl, env, nil, st, vc.entry)
 }
 
 func (vc *VC) markerNames(li *LoopInfo) []string {
@@ -631,6 +655,10 @@ func (vc *VC) backEdge(from *ssa.BasicBlock, h *ssa.BasicBlock, cond Term, st *S
 	for _, cl := range fc.LoopInv[li.ordinal] {
 		t := vc.loopClause(li, cl, phiVals, st)
 		vc.oblige("invariant-step", fmt.Sprintf("loop%d", li.ordinal), cond, t, from.Instrs[len(from.Instrs)-1].Pos(), cl.Text)
+	}
+	for _, lf := range li.frames {
+		vc.quantCtx = true
+		vc.oblige("loop-frame", fmt.Sprintf("loop%d", li.ordinal), cond, vc.loopFrameTerm(lf, vc.heapGet(st, lf.heap, lf.sort)), from.Instrs[len(from.Instrs)-1].Pos(), "loop modifies "+lf.text+"[*]")
 	}
 	if cl := fc.LoopDec[li.ordinal]; cl != nil {
 		t := vc.loopClause(li, cl, phiVals, st)
@@ -1692,4 +1720,24 @@ func (vc *VC) rangeIndexBound(li *LoopInfo, phi *ssa.Phi) (ssa.Value, bool) {
 		}
 	}
 	return cmp.Y, true
+}
+
+// loopFrame: `loop K: modifies X[*]`: memory of X's element type agrees with its pre-loop contents
+// everywhere except inside the window of X (X evaluated when the loop is entered).
+type loopFrame struct {
+	heap, sort string
+	sl         Term
+	oldH       Term
+	text       string
+}
+
+func (vc *VC) loopFrameTerm(lf *loopFrame, h Term) Term {
+	if h == lf.oldH {
+		return "true"
+	}
+	r, j := vc.freshName("r"), vc.freshName("j")
+	other := "(forall ((" + r + " Int)) (! (=> (not (= " + r + " " + slRef(lf.sl) + ")) (= (select " + h + " " + r + ") (select " + lf.oldH + " " + r + "))) :pattern ((select " + h + " " + r + "))))"
+	sel := "(select (select " + h + " " + slRef(lf.sl) + ") " + j + ")"
+	outside := "(forall ((" + j + " Int)) (! (=> (or (< " + j + " " + slOff(lf.sl) + ") (>= " + j + " (+ " + slOff(lf.sl) + " " + slLen(lf.sl) + "))) (= " + sel + " (select (select " + lf.oldH + " " + slRef(lf.sl) + ") " + j + "))) :pattern (" + sel + ")))"
+	return and(other, outside)
 }
